@@ -86,7 +86,19 @@ fn one(acc: &mut Acc, vm: &mut Option<Vm>, p: &PNum, radix: u32) {
                 return fail(acc, "panic", json!({"session": [text], "panic": panic_message(&e)}));
             }
             Ok(Err(e)) => return fail(acc, "literal-error", json!({"session": [text], "error": format!("{}", e)})),
-            Ok(Ok((Cell::Number(n), None))) if same_number(&n, &p.n) => {}
+            Ok(Ok((Cell::Number(n), None))) if same_number(&n, &p.n) => {
+                // and string->number of the prefixed spelling is that number too (the prefix is part of the spelling)
+                if text.starts_with('#') {
+                    let f = list(vec![sym("string->number"), Cell::String(text.clone())]);
+                    match scheme(vm, &f) {
+                        Ok(Ok(Cell::Number(m))) if same_number(&m, &p.n) => {}
+                        other => {
+                            let shown = match other { Ok(Ok(c)) => format!("{:#}", c), Ok(Err(e)) => format!("error: {}", e), Err(m) => format!("panic: {}", m) };
+                            return fail(acc, "string->number-disagrees-with-prefixed-literal", json!({"session": [format!("{:#}", f), text], "string_to_number": shown, "literal": show_val(&val(&p.n))}));
+                        }
+                    }
+                }
+            }
             Ok(Ok((c, rest))) => {
                 return fail(
                     acc,
@@ -115,7 +127,16 @@ fn one(acc: &mut Acc, vm: &mut Option<Vm>, p: &PNum, radix: u32) {
                     return fail(acc, "panic", json!({"session": [text], "panic": panic_message(&e)}));
                 }
                 Ok(Err(e)) => return fail(acc, "literal-error", json!({"session": [text], "error": format!("{}", e)})),
-                Ok(Ok((Cell::Number(n), None))) if same_number(&n, &want) => {}
+                Ok(Ok((Cell::Number(n), None))) if same_number(&n, &want) => {
+                    let f = list(vec![sym("string->number"), Cell::String(text.clone())]);
+                    match scheme(vm, &f) {
+                        Ok(Ok(Cell::Number(m))) if same_number(&m, &want) => {}
+                        other => {
+                            let shown = match other { Ok(Ok(c)) => format!("{:#}", c), Ok(Err(e)) => format!("error: {}", e), Err(m) => format!("panic: {}", m) };
+                            return fail(acc, "string->number-disagrees-with-prefixed-literal", json!({"session": [format!("{:#}", f), text], "string_to_number": shown, "literal": format!("{:#}", Cell::Number(want.clone()))}));
+                        }
+                    }
+                }
                 Ok(Ok((c, rest))) => {
                     return fail(
                         acc,
@@ -289,7 +310,7 @@ pub fn run(ctx: &Ctx) -> i32 {
         acc = Acc::merge(acc, a);
     }
     rep.rule = format!(
-        "(string->number (number->string z r) r) must be a number with z's value and exactness, and eval_text of the printed spelling with the #b/#o/#d/#x prefix (and bare for r = 10) must denote the same value; with an exactness prefix (#e / #i, on either side of the radix prefix) it must denote what inexact->exact / exact->inexact make of that value. z x r enumerated: the {} exact palette numbers in every representation x {{2,8,10,16}}; {} integers (k*2^e+d, and every integer of magnitude <= 70 000 - thorough: 1 100 000, all five-hex-digit numbers) x 4 radices; all reduced p/q with |p| <= 1100, q in 1..33 or 480..500 x 4 radices; finite doubles at radix 10: every {}-th of the {} structured doubles (every exponent field x 24 mantissa patterns x 2 signs), {} special values, the C09 float palette. Literal clause beyond the printer's spellings: every text of <= 5 characters over 0 1 5 e E + - . / that string->number turns into a number must, as program text, denote that number. Non-trivial = the whole inverse law held for that (z, r) / the literal agreed; cases are distinct (value, representation, radix) triples and distinct spellings.",
+        "(string->number (number->string z r) r) must be a number with z's value and exactness, and eval_text of the printed spelling with the #b/#o/#d/#x prefix (and bare for r = 10) must denote the same value; with an exactness prefix (#e / #i, on either side of the radix prefix) it must denote what inexact->exact / exact->inexact make of that value; string->number of each prefixed spelling (the prefix being part of the string) must give the same number as the literal. z x r enumerated: the {} exact palette numbers in every representation x {{2,8,10,16}}; {} integers (k*2^e+d, and every integer of magnitude <= 70 000 - thorough: 1 100 000, all five-hex-digit numbers) x 4 radices; all reduced p/q with |p| <= 1100, q in 1..33 or 480..500 x 4 radices; finite doubles at radix 10: every {}-th of the {} structured doubles (every exponent field x 24 mantissa patterns x 2 signs), {} special values, the C09 float palette. Literal clause beyond the printer's spellings: every text of <= 5 characters over 0 1 5 e E + - . / that string->number turns into a number must, as program text, denote that number. Non-trivial = the whole inverse law held for that (z, r) / the literal agreed; cases are distinct (value, representation, radix) triples and distinct spellings.",
         n_exact, n_extra, step, nd, specials.len()
     );
     rep.assumptions.push("NaN and infinities are outside the property".into());
